@@ -78,6 +78,20 @@ def harnesses(rep, cfg, modpath):
         return vcs
     H("montgomery to_edwards", "vp_mont_to_edwards", b_to_edwards)
 
+    def b_hash(it):
+        # Hash must be a function of the point (== compares canonical encodings: see 'montgomery ct_eq'): the bytes fed to the hasher are
+        # an 8-byte length prefix 32 followed by the canonical encoding of u mod p, for every 32-byte string (bit 255 and u >= p included)
+        s = ByteString(it, "u"); inp = it.new_region("in", 32); s.store(it, inp)
+        out = it.new_region("out", 40)
+        n = it.P(it.call("vp_mont_hash", [inp, out]))
+        ob = [it.ctx.resolve(it.P(it.load(Ptr(out.r, out.o + k), 1))) for k in range(40)]
+        vcs = [("40 bytes are written to the hasher", n.is_const() and n.cval() == 40),
+               ("length prefix 32 (usize, little endian)", all(b.is_const() for b in ob[:8]) and [b.cval() for b in ob[:8]] == [32, 0, 0, 0, 0, 0, 0, 0])]
+        cs = [c for c in it.canon if fnorm(c[0] - s.low).is_zero()]
+        vcs.append(("the 32 hashed bytes are the canonical encoding of the field element u mod p", len(cs) == 1 and all((a - b).is_zero() for a, b in zip(ob[8:], cs[0][1]))))
+        return vcs
+    H("Hash for MontgomeryPoint hashes the canonical encoding", "vp_mont_hash", b_hash)
+
     def b_elligator(it):
         r0 = V("r"); p = put_point(it, "r", [r0]); out = it.new_region("out", 32)
         it.call("vp_mont_elligator_encode", [out, p])
